@@ -404,6 +404,11 @@ def replay(cfg, events):
                         return [[abst(a), abst(o)] for a in g.subjects(path_obj(e["p"]), o)]
                     if via == "objects":
                         return [[abst(s), abst(b)] for b in g.objects(s, path_obj(e["p"]))]
+                    # growth G02: Graph.transitive_objects / transitive_subjects are p* with one end bound
+                    if via == "transitive_objects":
+                        return [[abst(s), abst(b)] for b in g.transitive_objects(s, conc(e["p"]["arg"]["iri"]))]
+                    if via == "transitive_subjects":
+                        return [[abst(a), abst(o)] for a in g.transitive_subjects(conc(e["p"]["arg"]["iri"]), o)]
                     text = "SELECT %s WHERE { %s %s %s }" % (" ".join(x for x in (["?s"] if s is None else []) + (["?o"] if o is None else [])) or "*",
                                                            "?s" if s is None else s.n3(), path_text(e["p"]), "?o" if o is None else o.n3())
                     e["text"] = text
